@@ -222,7 +222,7 @@ def t_rand(I, *size, device=None, dtype=None, requires_grad=False, **kw):
     def on(idx, v):
         I.ctx.axiom(z3.And(v >= 0, v < 1))
 
-    t = Tensor(uninterp_tensor("rand", dims, "real", on))
+    t = Tensor(uninterp_tensor("rand", dims, "real", on, random=True))
     I.ctx.ghost.setdefault("rand", []).append(Tensor(t.val))  # snapshot: the cell may be updated in place
     return t
 
@@ -233,7 +233,7 @@ def t_rand_like(I, a, **kw):
     def on(idx, v):
         I.ctx.axiom(z3.And(v >= 0, v < 1))
 
-    t = Tensor(uninterp_tensor("rand", a.shape, "real", on))
+    t = Tensor(uninterp_tensor("rand", a.shape, "real", on, random=True))
     I.ctx.ghost.setdefault("rand", []).append(Tensor(t.val))  # snapshot: the cell may be updated in place
     return t
 
@@ -247,13 +247,13 @@ class NormalDist:
 
     def tpv_getattr(self, I, name):
         if name == "sample":
-            return _IN().Builtin("Normal.sample", lambda I2, sample_shape=(): Tensor(uninterp_tensor("normal", _dims(I2, _shape_arg(I2, [sample_shape])) + list(self.batch), "real")))
+            return _IN().Builtin("Normal.sample", lambda I2, sample_shape=(): Tensor(uninterp_tensor("normal", _dims(I2, _shape_arg(I2, [sample_shape])) + list(self.batch), "real", random=True)))
         raise Unsupported(f"Normal.{name}")
 
 
 def t_randn(I, *size, **kw):
     dims = _dims(I, _shape_arg(I, size))
-    return Tensor(uninterp_tensor("randn", dims, "real"))
+    return Tensor(uninterp_tensor("randn", dims, "real", random=True))
 
 
 def t_randperm(I, n, device=None, **kw):
@@ -263,8 +263,8 @@ def t_randperm(I, n, device=None, **kw):
     d = dim_of(n)
     if len(d.factors) > 1:
         d = Dim([zint(n)])
-    f = z3.Function(core.fresh_name("perm"), z3.IntSort(), z3.IntSort())
-    inv = z3.Function(core.fresh_name("perminv"), z3.IntSort(), z3.IntSort())
+    f = z3.Function(core.random_name("perm"), z3.IntSort(), z3.IntSort())
+    inv = z3.Function(core.random_name("perminv"), z3.IntSort(), z3.IntSort())
     nn = zint(n)
 
     def fn(idx):
@@ -834,8 +834,14 @@ def _m_to(I, t, *a, **k):
     for x in list(a) + list(k.values()):
         if isinstance(x, DType):
             kind = x.kind
-    if kind is None or kind == t.val.dtype:
+    if kind is None:
         return t
+    if kind == t.val.dtype:
+        # the model has one kind per dtype family (float32 and float64 are both "real"): torch returns the tensor
+        # itself when it already has the requested dtype and a converted COPY otherwise -- both are explored
+        if I.choose(2, "to(dtype): same tensor | converted copy") == 0:
+            return t
+        return Tensor(t.val, t.requires_grad)
     return Tensor(cast(t.val, kind))
 
 
